@@ -48,6 +48,10 @@ func (a argv) String() string {
 	case "buf":
 		return fmt.Sprintf("buf[%d]", a.I)
 	case "time":
+		if a.S == "zero" {
+			return "time.Time{}"
+		}
+
 		return fmt.Sprintf("T0+%ds", a.I)
 	case "finfo":
 		return fmt.Sprintf("Lstat(%q)", a.S)
@@ -248,7 +252,9 @@ func vfsArgs(name string, mt reflect.Type, d domains) (tuples [][]argv, ok bool)
 
 		return t, true
 	case "Chtimes":
-		return each(d.paths, argv{K: "time", I: 1}, argv{K: "time", I: 1}), true
+		// the zero time is os.Chtimes's "leave unchanged": still a mutator for a read-only wrapper
+		return append(each(d.paths, argv{K: "time", I: 1}, argv{K: "time", I: 1}),
+			each(d.paths, argv{K: "time", S: "zero"}, argv{K: "time", S: "zero"})...), true
 	case "CreateTemp", "MkdirTemp":
 		dirs := []string{"/d", "", "/nope"}
 		if d.subFS {
